@@ -158,8 +158,22 @@ FamilyFails(fam, op, A, r) ==
     [] fam = "ieee" -> IeeeFails(op, A)
     [] OTHER -> {<<"tool", "unknown_family">>}
 
+\* C01 on its own (wider) domain: whatever the family contract says or skips, a TwoFloat produced from valid
+\* operands whose high words are 0 or in [2^-1000, 2^1000] (f64 operands: finite, same range) is normalised.
+\* The error-free product / quotient constructors are excluded below the 2^-960 product range (as stated).
+C01Operand(a) == CASE a.t = "tf" -> InDom(a.x, -1000, 1000)
+                   [] a.t = "f" -> WInRange(a.w, -1000, 1000)
+                   [] a.t = "tl" -> \A i \in 1..Len(a.v) : InDom(a.v[i], -1000, 1000)
+                   [] a.t = "fl" -> \A i \in 1..Len(a.v) : WInRange(a.v[i], -1000, 1000)
+                   [] OTHER -> TRUE
+C01Generic(fam, op, A, r) ==
+  IF fam \in {"ieee", "load", "text", "serde"} \/ ~(r.t = "tf" \/ r.t = "tf2") THEN {}
+  ELSE IF ~(\A i \in 1..Len(A) : C01Operand(A[i])) THEN {}
+  ELSE IF op \in {"new_mul", "new_div"} THEN {}          \* their own contracts carry the restricted C01 clause
+  ELSE C01Of(r)
+
 CallFails(fam, op, A, r, meta) ==
-  FamilyFails(fam, op, A, r)
+  FamilyFails(fam, op, A, r) \cup C01Generic(fam, op, A, r)
   \cup (IF fam = "ieee" THEN {} ELSE MemoFails(op, A, r, meta) \cup RelationFails(op, A, r))
 
 \* ---- drift: does the transcription (A) still reproduce the implementation's bits? --------------
